@@ -32,22 +32,69 @@ def opcodes() -> List[int]:
     return [o for o in range(256) if not G.is_pre(o)]
 
 
-def draw_encoding(st: S.Stream, pre: Optional[int], op: int) -> Optional[bytes]:
+def draw_encoding(st: S.Stream, pre: Optional[int], op: int, b2: Optional[int] = None, hi_bias: bool = False
+                  ) -> Optional[bytes]:
+    """b2 given: fixed second byte (focus grids); hi_bias: half of the operand bytes are drawn from F0..FF (internal
+    operands near the end of internal memory, also in the direct (n) mode where BP cannot move them)."""
     lb = legal_b2(op)
     if not lb:
         return None
-    if len(lb) == 256 and st.chance(1, 3):
+    if b2 is not None:
+        if hi_bias and len(lb) == 256 and st.chance(1, 2):
+            b2 = 0xF0 + st.below(16)
+    elif len(lb) == 256 and st.chance(1, 3):
         b2 = st.choice(G.BOUNDARY_BYTES)
     else:
         b2 = lb[st.below(len(lb))]
     tail = bytearray()
     for _ in range(5):
-        tail.append(st.choice(G.BOUNDARY_BYTES) if st.chance(1, 5) else (st.u32() & 0xFF))
+        if hi_bias and st.chance(1, 2):
+            tail.append(0xF0 + st.below(16))
+        else:
+            tail.append(st.choice(G.BOUNDARY_BYTES) if st.chance(1, 5) else (st.u32() & 0xFF))
     data = G.head_bytes(pre, op, b2) + bytes(tail)
     ln = G.info_len(data + G.NOP_PAD)
     if ln is None:
         return None
     return data[:ln]
+
+
+_FOCUS: Dict[str, List[Tuple[int, int]]] = {}
+
+
+def focus_heads(focus: str) -> List[Tuple[int, int]]:
+    """(opcode, second byte) heads of a boundary grid, found by asking the repository's decoder/renderer:
+    'blockwrap' -- every opcode rendered as MVL / MVLD (one head per distinct operand shape);
+    'ptr-edge'  -- every (opcode, mode byte) whose text has a [r3++] or [--r3] operand."""
+    v = _FOCUS.get(focus)
+    if v is not None:
+        return v
+    v = []
+    for op in opcodes():
+        shapes = set()
+        for b2 in legal_b2(op):
+            r = TP.tokens(bytes([op, b2, 0x10, 0x20, 0x03, 0x04]) + G.NOP_PAD)
+            if r is None:
+                continue
+            mn = TP.mnemonic(r[0])
+            if focus == "blockwrap":
+                if mn not in ("MVL", "MVLD"):
+                    break
+                sh = TP.shape(r[0])
+                if sh not in shapes:
+                    shapes.add(sh)
+                    v.append((op, b2))
+            else:
+                try:
+                    _, ops = CP.parse(r[0])
+                except CP.ParseError:
+                    continue
+                if not any(o[0] in ("ereg", "eind", "imem") for o in ops):
+                    break                    # the second byte is not a mode byte for this opcode
+                if any(o[0] == "ereg" and o[2] in ("postinc", "predec") for o in ops):
+                    v.append((op, b2))
+    _FOCUS[focus] = v
+    return v
 
 
 def _imem_ops(ops: List[Tuple[Any, ...]]) -> List[Tuple[int, Tuple[Any, ...], bool]]:
@@ -90,10 +137,23 @@ def _operand_len(mn: str, ops: List[Tuple[Any, ...]], i: int, is_ptr: bool, regs
     return 1, 1
 
 
-def choose_pointers(st: S.Stream, mn: str, ops: List[Tuple[Any, ...]], regs: Dict[str, int]) -> Tuple[int, int, int, List[str]]:
+def _range_of(mn: str, ops: List[Tuple[Any, ...]], i: int, o: Tuple[Any, ...], is_ptr: bool, regs: Dict[str, int],
+              bp: int, px: int, py: int) -> Tuple[int, int]:
+    ln, direction = _operand_len(mn, ops, i, is_ptr, regs)
+    a = _mode_addr(o[1], o[2], bp, px, py)
+    return (a, a + ln - 1) if direction > 0 else ((a - ln + 1, a) if direction < 0 else (a - ln + 1, a + ln - 1))
+
+
+def choose_pointers(st: S.Stream, mn: str, ops: List[Tuple[Any, ...]], regs: Dict[str, int],
+                    force_wrap: bool = False) -> Tuple[int, int, int, List[str]]:
     ims = _imem_ops(ops)
     labels: List[str] = []
     want_clean = not st.chance(1, 12)       # 11/12: ranges stay inside 00..FF and away from EC..EE
+    # block moves whose internal range crosses FF -> 00 (00 -> FF for MVLD): the maintainers' tests pin the wrap
+    # for MVL/MVLD only, so the class is requested for them only (1/24 of their cases, all of a 'blockwrap' grid)
+    want_wrap = force_wrap or (not want_clean and mn in ("MVL", "MVLD") and st.chance(1, 2))
+    if want_wrap:
+        want_clean = False
     best = None
     for attempt in range(200):
         bp, px, py = st.byte(), st.byte(), st.byte()
@@ -110,13 +170,22 @@ def choose_pointers(st: S.Stream, mn: str, ops: List[Tuple[Any, ...]], regs: Dic
             continue
         if best is None:
             best = (bp, px, py)
+        if want_wrap:
+            wraps = False
+            for i, o, is_ptr in ims:
+                lo, hi = _range_of(mn, ops, i, o, is_ptr, regs, bp, px, py)
+                if not is_ptr and (lo < 0 or hi > 0xFF):
+                    wraps = True
+            if wraps:
+                best = (bp, px, py)
+                labels.append("imem-range:wrap")
+                break
+            continue
         if not want_clean:
             break
         clean = True
         for i, o, is_ptr in ims:
-            ln, direction = _operand_len(mn, ops, i, is_ptr, regs)
-            a = _mode_addr(o[1], o[2], bp, px, py)
-            lo, hi = (a, a + ln - 1) if direction > 0 else ((a - ln + 1, a) if direction < 0 else (a - ln + 1, a + ln - 1))
+            lo, hi = _range_of(mn, ops, i, o, is_ptr, regs, bp, px, py)
             if lo < 0 or hi > 0xFF or not (hi < 0xEC or lo > 0xEE):
                 clean = False
                 break
@@ -129,7 +198,7 @@ def choose_pointers(st: S.Stream, mn: str, ops: List[Tuple[Any, ...]], regs: Dic
         best = (st.byte(), st.byte(), st.byte())
         if ims:
             labels.append("modes:not-distinct")
-    elif ims and "imem-range:clean" not in labels:
+    elif ims and "imem-range:clean" not in labels and "imem-range:wrap" not in labels:
         labels.append("imem-range:any")
     return best[0], best[1], best[2], labels
 
@@ -140,8 +209,12 @@ def bcd_byte(st: S.Stream) -> int:
     return (st.below(10) << 4) | st.below(10)
 
 
-def make_case(st: S.Stream, code: bytes, imax: int, pc: Optional[int] = None) -> Optional[Tuple[Dict[str, Any], List[str], str, List[Tuple[Any, ...]]]]:
-    """(case, labels, mnemonic, parsed operands) or None if the text cannot be parsed (counted by the caller)."""
+def make_case(st: S.Stream, code: bytes, imax: int, pc: Optional[int] = None, follow: bytes = b"",
+              focus: Optional[str] = None) -> Optional[Tuple[Dict[str, Any], List[str], str, List[Tuple[Any, ...]]]]:
+    """(case, labels, mnemonic, parsed operands) or None if the text cannot be parsed (counted by the caller).
+    follow: bytes of the instruction placed right after the one under test (then NOPs).
+    focus 'blockwrap': I >= 2 and an internal block that crosses the end of internal memory;
+    focus 'ptr-edge': the [r3++] / [--r3] pointer sits where the access just fits below 100000h / reaches 00000h."""
     r = TP.tokens(code + G.NOP_PAD)
     if r is None:
         return None
@@ -150,11 +223,21 @@ def make_case(st: S.Stream, code: bytes, imax: int, pc: Optional[int] = None) ->
         mn, ops = CP.parse(toks)
     except CP.ParseError:
         mn, ops = TP.mnemonic(toks), []
-    case, labels = S.gen_state(st, code, mn, imax=imax, pc=pc)
+    case, labels = S.gen_state(st, code, mn, imax=imax, pc=pc, pad=bytes(follow) + bytes(8))
     regs = case["regs"]
     if mn == "WAIT":
         regs["I"] = st.below(4 * imax + 1)   # a prefixed WAIT runs its IL loop I times (no fast path): keep it short
-    bp, px, py, lb = choose_pointers(st, mn, ops, regs)
+    if focus == "blockwrap" and regs["I"] < 2:
+        regs["I"] = 2 + st.below(23)
+    if focus == "ptr-edge":
+        for o in ops:
+            if o[0] == "ereg" and o[2] == "postinc":
+                regs[o[1]] = st.choice((0xFFFFD, 0xFFFFE, 0xFFFFF))     # a 3/2/1-byte access ends exactly at FFFFF
+                labels.append("ptr:edge-top")
+            elif o[0] == "ereg" and o[2] == "predec":
+                regs[o[1]] = st.choice((0x00001, 0x00002, 0x00003))     # a 1/2/3-byte access starts exactly at 00000
+                labels.append("ptr:edge-bottom")
+    bp, px, py, lb = choose_pointers(st, mn, ops, regs, force_wrap=(focus == "blockwrap"))
     labels += lb
     mem = [m for m in case["mem"] if m[0] not in (IMEM + 0xEC, IMEM + 0xED, IMEM + 0xEE)]
     mem += [[IMEM + 0xEC, bp], [IMEM + 0xED, px], [IMEM + 0xEE, py]]
